@@ -72,7 +72,25 @@ impl Scenario for Lifecycle {
             draw_size(rng, self.huge_pct)
         };
         let ic = if size == SizeClass::Colossal || size == SizeClass::Titanic { 1 } else if size == SizeClass::Gigantic { *rng.pick(&[1u8, 2, 4]) } else if size == SizeClass::ManyRegular { *rng.pick(&[2u8, 4, 2, 4, 1]) } else if size == SizeClass::MegaRegular { *rng.pick(&[2u8, 4, 4]) } else { draw_ic(rng, size == SizeClass::Huge || size == SizeClass::Window) };
-        let a = draw_archive(rng, size, ic);
+        let mut a = draw_archive(rng, size, ic);
+        if (4..8).contains(&run) && a.gen.is_none() && a.tiles.len() < 3000 {
+            // runs 4-7: a family of large tiles (above 64 KiB / 256 KiB / 1 MiB) of one length
+            // that differ from each other in a single byte somewhere inside, one of them twice
+            let len = match run {
+                4 => 65_537 + rng.below(100_000) as u32,
+                5 | 6 => (256 << 10) + 1 + rng.below(500_000) as u32,
+                _ => (1 << 20) + 1 + rng.below(300_000) as u32,
+            };
+            let mut id = a.tiles.iter().map(|t| t.id).max().map_or(0, |m| m + 1 + rng.below(50));
+            let n = 3 + rng.below(4) as u32;
+            for s in 0..=n {
+                let seed = if s == n { 1 } else { s };
+                if id < crate::spec::max_valid_id() {
+                    a.tiles.push(crate::case::Tile { id, c: crate::case::Cont { k: 4, seed, len } });
+                }
+                id += 1 + rng.below(3);
+            }
+        }
         let mut wface = Face::draw(rng);
         let rface = Face::draw(rng);
         let mut sched = if rng.chance(90) { Sched::draw(rng, wface, rface) } else { Sched::plain() };
